@@ -43,6 +43,16 @@ fn main() {
                         Outcome::Panic(p) => {
                             let ent = err.entry(r.op).or_insert((0, format!("PANIC {} at {}", p.msg, p.loc())));
                             ent.0 += 1;
+                            if ent.0 <= 2 {
+                                println!(
+                                    "PANIC in {}: {} at {}; node {}; inputs {:?}",
+                                    r.op,
+                                    p.msg,
+                                    p.loc(),
+                                    node_def_json(&built, r.node.name()),
+                                    r.inputs.iter().map(vc_ops::cmp::show_opt).collect::<Vec<_>>()
+                                );
+                            }
                         }
                     }
                 }
